@@ -155,17 +155,13 @@ def fmtExp (x : Int) : Bytes :=
   let d := digitsOf x.natAbs
   101 :: (if x < 0 then 45 else 43) :: (if d.length < 2 then 48 :: d else d)
 
-/-- `%g` of a positive number with significant digits `ds` (no trailing zeros, non-empty) and decimal
-exponent `x` (value = d.ddd · 10^x): `%e` style when `x < -4` or `x ≥ 21`... Go's shortest `%g` uses
-the threshold 21 only for `%v` of `encoding/json`; `fmt` uses precision 6 for the decision, so the
-exponent form starts at `x ≥ 6`… unless the number of digits is larger: `eprec = max 6? ` — no: with the
-shortest flag `eprec` is 6 when `digits ≤ 6`, and `digits` when more digits are needed but never above
-21 (strconv/ftoa.go `%e is used if the exponent from the conversion is less than -4 or greater than or
-equal to the precision. if precision was the shortest possible, use precision 6 for this decision`). -/
+/-- `%g` (shortest) of a positive number with significant digits `ds` (no trailing zeros, non-empty)
+and decimal exponent `x` (value = d.ddd · 10^x): the `%e` style when `x < -4` or `x ≥ 6`
+(strconv/ftoa.go `formatDigits`: "if precision was the shortest possible, use precision 6 for this
+decision"), else plain digits -/
 def fmtGDigits (ds : Bytes) (x : Int) : Bytes :=
   let nd := ds.length
-  let eprec : Int := if nd > 6 && (nd : Int) ≥ x + 1 then min nd 21 else 6
-  if x < -4 || x ≥ (if nd > 6 && (nd : Int) ≥ x + 1 then eprec else 6) then
+  if x < -4 || x ≥ 6 then
     -- d[.ddd]e±xx
     (match ds with
      | [] => []
